@@ -35,6 +35,7 @@ type cfg struct {
 	Yields   int           `json:"yields_at_queue_points"`
 	SmallWin bool          `json:"sample_window_of_10_completions"` // the limiter's sample window closes after 11 completions (any duration)
 	Collide  bool          `json:"timeouts_collide_with_releases"`
+	StratArg int           `json:"generic_pool_strategy_constructed_with"` // the number handed to the strategy's constructor (the limiter's limit governs)
 }
 
 var orderings = map[string]pool.Ordering{"random": pool.OrderingRandom, "fifo": pool.OrderingFIFO, "lifo": pool.OrderingLIFO}
@@ -51,9 +52,13 @@ func build(c cfg) core.Limiter {
 		}
 		return p
 	}
-	var st core.Strategy = strategy.NewPreciseStrategy(c.Limit)
+	arg := c.Limit
+	if c.StratArg > 0 {
+		arg = c.StratArg // a placeholder: the limiter hands the strategy the limit algorithm's value
+	}
+	var st core.Strategy = strategy.NewPreciseStrategy(arg)
 	if c.Simple {
-		st = strategy.NewSimpleStrategy(c.Limit)
+		st = strategy.NewSimpleStrategy(arg)
 	}
 	minW, thr, ws := int64(1e9), int64(1e5), 100
 	if c.SmallWin {
@@ -95,6 +100,9 @@ func genCfg(r *rand.Rand) cfg {
 	c.Simple = c.Pool == "generic" && r.IntN(2) == 0
 	c.Yields = []int{0, 100, 1500}[r.IntN(3)]
 	c.SmallWin = r.IntN(2) == 0
+	if c.Pool == "generic" && r.IntN(2) == 0 {
+		c.StratArg = 1 + r.IntN(2*c.Limit+3)
+	}
 	return c
 }
 
